@@ -238,6 +238,7 @@ func (x *Exec) applyContract(fr *Frame, callee *ssa.Function, con *Contract, arg
 		if err != nil {
 			panic(fmt.Sprintf("contract error: %s ensures %s: %v", key, cl.Label, err))
 		}
+		x.autoUnfold(t.S, 2)
 		x.C.Assume(bc, t)
 	}
 	return results
